@@ -211,6 +211,7 @@ func checkC18(r *core.Run) {
 	c18UpsertAfter(r)
 	c18ColumnDefault(r)
 	c18PkRows(r, liveFns)
+	c18ArgIndex(r, liveFns)
 	r.Floor("C18.derive", 10)
 	r.Floor("C18.markers", 1)
 	r.Floor("C18.scan", 28)
@@ -1035,6 +1036,130 @@ func c18PkRows(r *core.Run, liveFns []*core.FuncInfo) {
 	r.Sites += len(cs)
 	r.Check(hole == "", "C18.pkrows", "every VALUES element is counted as a parameter marker or as a non-marker", w.Pos(cs[0].cond.Pos()), "the counting tests cover the marker, other strings and non-strings",
 		hole+" is counted neither as a marker nor as a non-marker ("+strings.Join(where, "; ")+"): the index of the bound argument of a key placed after such an element is off by one — another argument's value (or a crash of the executor) stands for the inserted row's key")
+}
+
+// c18ArgIndex (C18.pkrows): inside a loop over the rows of a VALUES list, the position of a marker's bound argument
+// is a running count of the markers met so far — a counter that lives across the rows — and does not depend on the
+// row's position: rows may bind different numbers of parameters (a literal, NULL or DEFAULT in one row only), so
+// "row index times markers per row" points at another row's argument.
+func c18ArgIndex(r *core.Run, liveFns []*core.FuncInfo) {
+	w := r.W
+	n := 0
+	for _, f := range liveFns {
+		if w.IsTestFile(f.Decl.Pos()) || f.Decl.Body == nil {
+			continue
+		}
+		info := f.Pkg.TypesInfo
+		isRows := func(t types.Type) bool {
+			if t == nil {
+				return false
+			}
+			s, ok := t.Underlying().(*types.Slice)
+			if !ok {
+				return false
+			}
+			_, ok = s.Elem().Underlying().(*types.Slice)
+			return ok
+		}
+		isArgs := func(t types.Type) bool {
+			if t == nil {
+				return false
+			}
+			s, ok := t.Underlying().(*types.Slice)
+			if !ok {
+				return false
+			}
+			nt, ok := s.Elem().(*types.Named)
+			return ok && nt.Obj().Name() == "NamedValue" && nt.Obj().Pkg() != nil && nt.Obj().Pkg().Path() == "database/sql/driver"
+		}
+		var stack []ast.Node
+		ast.Inspect(f.Decl.Body, func(nd ast.Node) bool {
+			if nd == nil {
+				stack = stack[:len(stack)-1]
+				return true
+			}
+			stack = append(stack, nd)
+			ix, ok := nd.(*ast.IndexExpr)
+			if !ok || !isArgs(info.TypeOf(ix.X)) || core.ConstVal(info, ix.Index) != nil {
+				return true
+			}
+			// the innermost enclosing loop over rows
+			var rows *ast.RangeStmt
+			for i := len(stack) - 1; i >= 0; i-- {
+				if rs, ok := stack[i].(*ast.RangeStmt); ok && isRows(info.TypeOf(rs.X)) {
+					rows = rs
+					break
+				}
+			}
+			if rows == nil {
+				return true
+			}
+			// what the index depends on
+			deps := map[types.Object]bool{}
+			var walk func(e ast.Expr, depth int)
+			walk = func(e ast.Expr, depth int) {
+				if e == nil || depth > 6 {
+					return
+				}
+				ast.Inspect(e, func(m ast.Node) bool {
+					id, ok := m.(*ast.Ident)
+					if !ok {
+						return true
+					}
+					v, ok := info.Uses[id].(*types.Var)
+					if !ok || v.IsField() || deps[v] {
+						return true
+					}
+					deps[v] = true
+					for _, d := range localDefs(f, v) {
+						if !d.rng {
+							walk(d.rhs, depth+1)
+						}
+					}
+					return true
+				})
+			}
+			walk(ix.Index, 0)
+			n++
+			r.Sites++
+			r.Fn(f)
+			why := ""
+			if k := core.ObjOf(info, rows.Key); rows.Key != nil && k != nil && deps[k] {
+				why = "the index depends on the row's position (" + k.Name() + ")"
+			} else {
+				running := false
+				for o := range deps {
+					if o.Pos() < rows.Pos() || o.Pos() >= rows.End() {
+						// declared outside the loop over the rows: is it advanced inside it?
+						ast.Inspect(rows.Body, func(m ast.Node) bool {
+							switch x := m.(type) {
+							case *ast.IncDecStmt:
+								if core.ObjOf(info, x.X) == o {
+									running = true
+								}
+							case *ast.AssignStmt:
+								for _, l := range x.Lhs {
+									if core.ObjOf(info, l) == o {
+										running = true
+									}
+								}
+							}
+							return true
+						})
+					}
+				}
+				if !running {
+					why = "the index does not depend on a count carried across the rows"
+				}
+			}
+			r.Check(why == "", "C18.pkrows", core.ShortKey(f.Obj)+" : a marker's argument is found by a running count over the rows", w.Pos(ix.Pos()), "a counter declared outside the loop over the rows and advanced inside it; not the row index",
+				why+": rows of one VALUES list may bind different numbers of parameters, so the key of a later row is read from another argument — the after image (and the lock keys) name a row the statement did not insert and miss one it did")
+			return true
+		})
+	}
+	if n < 2 {
+		r.Undecided("C18.pkrows", "INSTANCE-FLOOR C18.pkrows argument index", "", "fewer than the two places confirmed by hand where a bound argument is picked inside a loop over VALUES rows (insert, insert on duplicate key update)")
+	}
 }
 
 // c18Form: the truth of a counting test for an element that is / is not a string and is / is not the marker text
